@@ -216,7 +216,10 @@ def m_future_poll(ex, st, args, dty, canon):
         caller.bb, caller.idx = term.target, 0
         ex.new_frame(st, body, [Tree({0: p}, None, 'Pin'), args[1]], dest=(dcell, dpath), ret_bb=term.target)
         return NOTHING
-    poll_value(ex, st, fv, p, args[1], cont, out_ty)
+    if getattr(ex, 'poll_hooks', False):
+        poll2(ex, st, fv, p, args[1], cont, out_ty)
+    else:
+        poll_value(ex, st, fv, p, args[1], cont, out_ty)
     return NOTHING
 
 
@@ -1145,3 +1148,334 @@ def m_puc_cut(ex, st, args, dty, canon):
 
 def cut_perform_update_check(ex):
     ex.model_patterns.insert(0, (re.compile(r'^StateMachine::<.*>::perform_update_check$'), m_puc_cut))
+
+
+# ------------------------------------------------------------------ select!, Fuse, join with pending futures
+# Stateful combinators keep their children in cells of their own so that progress survives a Pending.
+
+def _pend_count(st, key):
+    return st.extra.get(('pend', key), 0)
+
+
+def pendable(ex, name):
+    f = ex.cfg.get('pendable')
+    return bool(f and f(name))
+
+
+def m_fuse(ex, st, args, dty, canon):
+    return Obj('fut', ('fuse', alloc(ex, st, args[0], 'fused'), False))
+
+
+def m_join2(ex, st, args, dty, canon):
+    a = alloc(ex, st, Obj('fut', ('maybedone', alloc(ex, st, args[0], 'ja'), None)), 'md')
+    b = alloc(ex, st, Obj('fut', ('maybedone', alloc(ex, st, args[1], 'jb'), None)), 'md')
+    return Obj('fut', ('join2', a, b))
+
+
+def m_map2(ex, st, args, dty, canon):
+    return Obj('fut', ('map', alloc(ex, st, args[0], 'mapped'), args[1]))
+
+
+def install_select(ex):
+    """replace the transparent Fuse/join/map models by stateful ones (needed once futures may be Pending)"""
+    pats = [
+        (r'^<.* as FutureExt>::fuse$', m_fuse),
+        (r'^futures::future::join::<.*>$|^future::join::<.*>$|^join::<.*>$|^futures::futures_util::future::join::<.*>$', m_join2),
+        (r'^<.* as FutureExt>::map(::<.*>)?$', m_map2),
+        (r' as FusedFuture>::is_terminated$', m_is_terminated),
+        (r' as (futures::)?FutureExt>::poll_unpin$', m_poll_unpin),
+        (r'^(std::task::)?Poll::<.*>::map::<.*>$', m_poll_map),
+        (r'async_await::random::shuffle::<.*>$', m_shuffle),
+        (r' as StreamExt>::select_next_some$', m_select_next_some),
+        (r'^(futures::channel::)?oneshot::Sender::<.*>::send$|oneshot::Sender::<.*>::send$', m_oneshot_send),
+        (r'async_await::assert_(fused_future|unpin|fused_stream)::<.*>$', lambda ex, st, args, dty, canon: UNIT),
+    ]
+    for rx, f in reversed(pats):
+        ex.model_patterns.insert(0, (re.compile(rx), f))
+    ex.poll_hooks = True
+
+
+def _fut_at(ex, st, p):
+    """(value, pointer) of the future designated by p, looking through Pin / reference layers"""
+    cur = p
+    for _ in range(5):
+        if isinstance(cur, Tree) and cur.origin is None and 0 in cur.f and len([k for k in cur.f if isinstance(k, int)]) == 1 and isinstance(cur.f[0], Ptr):
+            cur = cur.f[0]
+            continue
+        if isinstance(cur, Ptr):
+            v = deref(ex, st, cur)
+            if isinstance(v, Ptr) or (isinstance(v, Tree) and v.origin is None and 0 in v.f and isinstance(v.f[0], Ptr) and not (v.ty or '').startswith('{coroutine')):
+                cur = v
+                continue
+            return v, cur
+        break
+    return cur, None
+
+
+def m_is_terminated(ex, st, args, dty, canon):
+    v, p = _fut_at(ex, st, args[0])
+    if isinstance(v, Obj) and v.kind == 'fut' and v.data[0] == 'fuse':
+        return Sc(z3.BoolVal(bool(v.data[2])), 'bool')
+    if isinstance(v, Obj) and v.kind == 'fut' and v.data[0] == 'select_next':
+        return Sc(z3.BoolVal(False), 'bool')
+    raise Inconclusive('is_terminated on %r' % (v,))
+
+
+def m_poll_unpin(ex, st, args, dty, canon):
+    v, p = _fut_at(ex, st, args[0])
+    finish = _call_site(ex, st)
+
+    def cont(ex2, s2, pv):
+        return finish(ex2, s2, pv)
+    poll2(ex, st, v, p, args[1], cont, inner_ty(dty))
+    return NOTHING
+
+
+def m_poll_map(ex, st, args, dty, canon):
+    pv = args[0]
+    d = z3.simplify(ex.discr_of(st, pv).t)
+    if not z3.is_int_value(d):
+        raise Inconclusive('Poll::map on symbolic poll')
+    if d.as_long() == 1:
+        return pending()
+    finish = _call_site(ex, st)
+
+    def cont(ex2, s2, r):
+        return finish(ex2, s2, ready(r))
+    f = args[1]
+    if isinstance(f, Obj) and f.kind == 'fnitem':
+        m = re.search(r'__PrivResult(::<.*>)?::_(\d+)$', f.data)
+        if m:
+            k = int(m.group(2))
+            return ready(mk_enum(k, k, [payload(ex, st, pv, 0, 0)], '__PrivResult'))
+    r = call_fnlike(ex, st, f, [payload(ex, st, pv, 0, 0)], cont)
+    return NOTHING
+
+
+def m_shuffle(ex, st, args, dty, canon):
+    import itertools
+    p = as_ptr(ex, st, args[0], 'shuffle')
+    arr = deref(ex, st, p)
+    n = vec_len(ex, st, arr)
+    items = [ex.child(st, arr, i, None) for i in range(n)]
+    alts = []
+    for perm in itertools.permutations(range(n)):
+        def ap(s, perm=perm):
+            ex.store(s, p.cell, [(k, None) for k in p.path], Tree(dict((i, items[j]) for i, j in enumerate(perm)), None, arr.ty, arr.meta))
+            return UNIT
+        alts.append((None, ap))
+    if ex.cfg.get('select_orders', 'all') == 'first':
+        alts = alts[:1]
+    raise Fork(alts)
+
+
+def m_select_next_some(ex, st, args, dty, canon):
+    return Obj('fut', ('select_next', args[0]))
+
+
+def m_oneshot_send(ex, st, args, dty, canon):
+    st.trace.append(Event('env', 'reply', (args[0], args[1])))
+    return ok(UNIT)
+
+
+def poll2(ex, st, fv, fptr, cx, cont, out_ty=None):
+    """poll with Pending support for the stateful combinators; falls back to poll_value"""
+    if isinstance(fv, Obj) and fv.kind == 'fut':
+        k = fv.data[0]
+        if k == 'fuse':
+            inner_p, done = fv.data[1], fv.data[2]
+            if done:
+                return cont(ex, st, pending())
+
+            def after(ex2, s2, pv):
+                d = z3.simplify(ex2.discr_of(s2, pv).t)
+                if not z3.is_int_value(d):
+                    raise Inconclusive('symbolic poll result in Fuse')
+                if d.as_long() == 0 and fptr is not None:
+                    ex2.store(s2, fptr.cell, [(kk, None) for kk in fptr.path], Obj('fut', ('fuse', inner_p, True)))
+                return cont(ex2, s2, pv)
+            return poll2(ex, st, deref(ex, st, inner_p), inner_p, cx, after, out_ty)
+        if k == 'maybedone':
+            inner_p, val = fv.data[1], fv.data[2]
+            if val is not None:
+                return cont(ex, st, ready(val[0]))
+
+            def after(ex2, s2, pv):
+                d = z3.simplify(ex2.discr_of(s2, pv).t)
+                if z3.is_int_value(d) and d.as_long() == 0:
+                    v = payload(ex2, s2, pv, 0, 0)
+                    ex2.store(s2, fptr.cell, [(kk, None) for kk in fptr.path], Obj('fut', ('maybedone', inner_p, (v,))))
+                return cont(ex2, s2, pv)
+            return poll2(ex, st, deref(ex, st, inner_p), inner_p, cx, after)
+        if k == 'join2':
+            a, b = fv.data[1], fv.data[2]
+
+            def after_a(ex2, s2, pa):
+                def after_b(ex3, s3, pb):
+                    da = z3.simplify(ex3.discr_of(s3, pa).t)
+                    db = z3.simplify(ex3.discr_of(s3, pb).t)
+                    if z3.is_int_value(da) and z3.is_int_value(db):
+                        if da.as_long() == 0 and db.as_long() == 0:
+                            return cont(ex3, s3, ready(Tree({0: payload(ex3, s3, pa, 0, 0), 1: payload(ex3, s3, pb, 0, 0)}, None, None)))
+                        return cont(ex3, s3, pending())
+                    raise Inconclusive('symbolic poll in join')
+                return poll2(ex2, s2, deref(ex2, s2, b), b, cx, after_b)
+            return poll2(ex, st, deref(ex, st, a), a, cx, after_a)
+        if k == 'map' and isinstance(fv.data[1], Ptr):
+            inner_p, clo = fv.data[1], fv.data[2]
+
+            def after(ex2, s2, pv):
+                d = z3.simplify(ex2.discr_of(s2, pv).t)
+                if not z3.is_int_value(d):
+                    raise Inconclusive('symbolic poll in map')
+                if d.as_long() == 1:
+                    return cont(ex2, s2, pending())
+
+                def after2(ex3, s3, r):
+                    return cont(ex3, s3, ready(r))
+                return call_fnlike(ex2, s2, clo, [payload(ex2, s2, pv, 0, 0)], after2)
+            return poll2(ex, st, deref(ex, st, inner_p), inner_p, cx, after, out_ty)
+        if k == 'select_next':
+            n = st.extra.get('nctl', 0)
+            mx = ex.cfg.get('max_control_requests', 1)
+            alts = [(None, lambda s: (cont(ex, s, pending()), NOTHING)[1])]
+            if n < mx:
+                def got(s, n=n):
+                    s.extra['nctl'] = n + 1
+                    req = Tree({}, 'ctl%d' % n, 'state_machine::ControlRequest')
+                    s.trace.append(Event('env', 'control-request', (req,), 'ctl%d' % n))
+                    cont(ex, s, ready(req))
+                    return NOTHING
+                alts.append((None, got))
+            raise Fork(alts)
+        if k == 'pendable':
+            name, val = fv.data[1], fv.data[2]
+            key = name
+            n = _pend_count(st, key)
+            alts = [(None, lambda s: (cont(ex, s, ready(val)), NOTHING)[1])]
+            if n < ex.cfg.get('max_pending', 1):
+                def pend(s):
+                    s.extra[('pend', key)] = n + 1
+                    cont(ex, s, pending())
+                    return NOTHING
+                alts.append((None, pend))
+            raise Fork(alts)
+    if isinstance(fv, Tree) and fv.origin is not None and re.match(r'^ev\d+$', fv.origin or ''):
+        m = re.match(r'^ev(\d+)$', fv.origin)
+        name = st.trace[int(m.group(1))].name if int(m.group(1)) < len(st.trace) else ''
+        if pendable(ex, name):
+            key = fv.origin
+            if st.extra.get(('fired', key)):
+                return poll_value(ex, st, fv, fptr, cx, cont, out_ty)
+            n = _pend_count(st, key)
+
+            def fire(s):
+                s.extra[('fired', key)] = True
+                s.extra[('firedat', key)] = len(s.trace)
+                poll_value(ex, s, fv, fptr, cx, cont, out_ty)
+                return NOTHING
+            alts = [(None, fire)]
+            if n < ex.cfg.get('max_pending', 1):
+                def pend(s):
+                    s.extra[('pend', key)] = n + 1
+                    cont(ex, s, pending())
+                    return NOTHING
+                alts.append((None, pend))
+            raise Fork(alts)
+    if isinstance(fv, Ptr):
+        return poll2(ex, st, deref(ex, st, fv), fv, cx, cont, out_ty)
+    return poll_value(ex, st, fv, fptr, cx, cont, out_ty)
+
+
+def m_start_update_check_cut(ex, st, args, dty, canon):
+    """start_update_check as an event returning the reboot decision; may be Pending so that control
+    requests can arrive while the check runs"""
+    rty = 'state_machine::RebootAfterUpdate<IR>'
+    res = env_event(ex, st, 'start_update_check', (ex.snapshot(st, args[1]),), rty)
+    return Obj('fut', ('pendable', st.trace[-1].out, res))
+
+
+def cut_start_update_check(ex):
+    ex.model_patterns.insert(0, (re.compile(r'^StateMachine::<.*>::start_update_check$'), m_start_update_check_cut))
+
+
+def m_ping_cut(ex, st, args, dty, canon):
+    env_event(ex, st, 'ping_omaha', (), '()')
+    return fut('ready', UNIT)
+
+
+def cut_ping(ex):
+    ex.model_patterns.insert(0, (re.compile(r'^StateMachine::<.*>::ping_omaha$'), m_ping_cut))
+
+
+@pattern(r'^(futures::)?future::poll_fn::<.*>$|^std::future::poll_fn::<.*>$')
+def m_poll_fn(ex, st, args, dty, canon):
+    return Obj('fut', ('poll_fn', args[0]))
+
+
+_orig_poll2 = poll2
+
+
+def poll2(ex, st, fv, fptr, cx, cont, out_ty=None):      # noqa: F811  (adds poll_fn support)
+    if isinstance(fv, Obj) and fv.kind == 'fut' and fv.data[0] == 'poll_fn':
+        clo = fv.data[1]
+        # the closure is FnMut(&mut Context) -> Poll<T>; it lives inside the PollFn object: give it a cell
+        if fptr is not None:
+            cp = Ptr(fptr.cell, fptr.path)      # same storage (the closure state is its captured references)
+        cl = clo
+        fn, tv = ex.closure_fn_for(st, clo)
+        if fn is None:
+            raise Inconclusive('poll_fn closure not found')
+        if fn.args[0][1].strip().startswith('&') and not isinstance(clo, Ptr):
+            key = ('pollfn', id(fv))
+            cl = alloc(ex, st, clo, 'pollfn')
+        ex.new_frame(st, fn, [cl, cx], on_return=cont)
+        return PUSHED
+    return _orig_poll2(ex, st, fv, fptr, cx, cont, out_ty)
+
+
+@pattern(r'^(alloc::|std::)?fmt::format$|^std::fmt::format$|^alloc::fmt::format$')
+def m_fmt_format(ex, st, args, dty, canon):
+    fr = st.frames[-1]
+    return Sc(z3.String('fmt!%s:%d:%d' % (fr.fn.text_hash, fr.bb, fr.visits.get(fr.bb, 0))), 'str')
+
+
+@pattern(r'(^|::)must_use(::<.*>)?$')
+def m_must_use(ex, st, args, dty, canon):
+    return args[0]
+
+
+@pattern(r'^(core::fmt::rt::)?Argument::<?.*>?::new_(debug|display)(::<.*>)?$|^Argument::new_(debug|display)$|^(core::fmt::)?Arguments::<?.*>?::new(_const|_v1)?(::<.*>)?$|^Arguments::new$')
+def m_fmt_args(ex, st, args, dty, canon):
+    return Tree({}, None, dty)
+
+
+@pattern(r'^(std::string::)?String::is_empty$|^<impl str>::is_empty$|^core::str::<impl str>::is_empty$')
+def m_string_is_empty(ex, st, args, dty, canon):
+    s_ = as_str(ex, st, args[0])
+    return Sc(z3.Length(s_.t) == 0, 'bool')
+
+
+@pattern(r'^<\[(u8|u16|u32|u64|usize|i32|i64); \d+\] as PartialEq>::(eq|ne)$')
+def m_int_array_eq(ex, st, args, dty, canon):
+    a = deref_all(ex, st, args[0])
+    b = deref_all(ex, st, args[1])
+    n = int(re.search(r'; (\d+)\]', canon[4]).group(1))
+    ty = re.search(r'\[(\w+);', canon[4]).group(1)
+    e = z3.And(*[ex.child(st, a, i, ty).t == ex.child(st, b, i, ty).t for i in range(n)])
+    return Sc(e if canon[3] == 'eq' else z3.Not(e), 'bool')
+
+
+@pattern(r' as PartialEq(<.*>)?>::ne$')
+def m_generic_ne(ex, st, args, dty, canon):
+    """default `ne`: the negation of the type's own `eq` (taken from the crate MIR)"""
+    key = canon[0][:-2] + 'eq'
+    d = ex.find_def(key, nargs=2)
+    if d is None:
+        raise Inconclusive('no eq body for %s' % canon[0])
+    finish = _call_site(ex, st)
+
+    def cont(ex2, s2, r):
+        return finish(ex2, s2, Sc(z3.Not(ex2.as_bool(r)), 'bool'))
+    ex.new_frame(st, d, list(args), on_return=cont)
+    return NOTHING
